@@ -2,3 +2,5 @@ import PysamlModel.Props.C01
 #print axioms C01.C01_sound
 #print axioms C01.C01_defaults
 #print axioms C01.C01_model_meets_spec_sound
+#print axioms C01.C01_complete
+#print axioms C01.C01_model_meets_spec_complete
